@@ -190,6 +190,9 @@ def check_case(p, ctx):
         eq2, msg = equations(tt, R2, frame2, pm2, ridge_of2)
         if eq2 is None:
             return ctx.violation("equation-shape:" + name, p, observed=msg, expected="+1/-1 on two cells")
+        if set(eq2) != set(eqs):
+            return ctx.violation("equation-set-changed:" + name, p, observed=sorted(map(str, set(eq2) ^ set(eqs)))[:6],
+                                 expected="one equation per internal interface in every realisation")
         for ri, (plus, minus, rhs) in eqs.items():
             p2, m2, rhs2 = eq2[ri]
             rr = t.ridges[ri]
